@@ -53,6 +53,8 @@ def pool():
     XL = hx.errors().XLError
     # error objects that are NOT the nine shared singletons (a host may build its own)
     vals += [XL('#CIRCULAR!'), XL(''), XL('#N/A', 'detail'), XL(), XL('#N/A'), type('HostXL', (XL,), {'__str__': lambda self: 'host says no'})('x')]
+    # ... and host-built ones that spell a canonical code and carry more (a reason, a cell): what the host builds is the host's object
+    vals += [XL('#ERROR!', 'reason'), XL('#VALUE!', 1, 2), XL('#DIV/0!', {'cell': 'B2'})]
     # "a value of every type": the types a Python host has lying around besides the spreadsheet ones (appended, so CORE indices stay put)
     import collections, decimal, enum, fractions
     Colour = enum.IntEnum('Colour', 'RED GREEN')
